@@ -493,6 +493,9 @@ func normalizePackage(repo, relDir string, p *packages.Package, imp types.Import
 			if _, err := checkPackage(p.PkgPath, p.Name, names, nsrc.src, imp); err == nil {
 				content, left := flattenNewLiterals(p, names, imp, src, nsrc.file, nsrc.src[names[nsrc.file]])
 				if !left {
+					if fb, ferr := format.Source(content); ferr == nil {
+						content = fb
+					}
 					src[names[nsrc.file]] = content
 					res.Inlined = append(res.Inlined, desc)
 					return true
@@ -715,6 +718,9 @@ func normalizePackage(repo, relDir string, p *packages.Package, imp types.Import
 			}
 			trial[names[best.file]] = nsrc
 			if _, err := checkPackage(p.PkgPath, p.Name, names, trial, imp); err == nil {
+				if fb, ferr := format.Source(nsrc); ferr == nil {
+					nsrc = fb // (the inliner hands back formatted files; edits are compared with what it was given)
+				}
 				src[names[best.file]] = nsrc
 				res.Inlined = append(res.Inlined, fmt.Sprintf("loop test with a call of %s in %s moved to the top of the loop body", best.callee.FullName(), best.encl))
 				continue
@@ -799,6 +805,9 @@ func normalizePackage(repo, relDir string, p *packages.Package, imp types.Import
 					trial[names[best.file]] = sub
 					if _, err := checkPackage(p.PkgPath, p.Name, names, trial, imp); err == nil {
 						res.Inlined = append(res.Inlined, fmt.Sprintf("%s into %s (returned expression substituted)", best.callee.FullName(), best.encl))
+						if fb, ferr := format.Source(sub); ferr == nil {
+							sub = fb
+						}
 						src[names[best.file]] = sub
 						continue
 					}
@@ -1758,9 +1767,11 @@ func guardSelfShadow(np *npkg, file int, call *ast.CallExpr, old, new []byte) ([
 	hi := np.fset.Position(stmt.End()).Offset
 	tail := len(old) - hi
 	if lo > len(new) || len(new)-tail < lo || !bytes.Equal(old[:lo], new[:lo]) || !bytes.Equal(old[hi:], new[len(new)-tail:]) {
+		foldDebug("guardSelfShadow", "edit not confined to the statement")
 		// imports were added or the edit is not confined to the statement: look at the whole file for a new
 		// self-binding that the old file did not have
 		if countSelfBindings(new) > countSelfBindings(old) {
+			foldDebug("guardSelfShadow", fmt.Sprintf("edit not confined to the statement [%d,%d) old=%d new=%d", lo, hi, len(old), len(new)))
 			return new, false
 		}
 		return new, true
@@ -1774,6 +1785,53 @@ func guardSelfShadow(np *npkg, file int, call *ast.CallExpr, old, new []byte) ([
 	}
 	if !has {
 		return new, true
+	}
+	// a binding inside a function literal that the inliner made for the call is scoped by that literal
+	if f2, err := parser.ParseFile(token.NewFileSet(), "x.go", new, 0); err == nil {
+		exposed := false
+		base := int(f2.FileStart)
+		var lits []*ast.FuncLit
+		ast.Inspect(f2, func(n ast.Node) bool {
+			if fl, ok := n.(*ast.FuncLit); ok && int(fl.Pos())-base >= lo && int(fl.End())-base <= len(new)-tail {
+				lits = append(lits, fl)
+			}
+			return true
+		})
+		ast.Inspect(f2, func(n ast.Node) bool {
+			ds, ok := n.(*ast.DeclStmt)
+			if !ok || int(ds.Pos())-base < lo || int(ds.End())-base > len(new)-tail {
+				return true
+			}
+			gd, ok := ds.Decl.(*ast.GenDecl)
+			if !ok || gd.Tok != token.VAR {
+				return true
+			}
+			for _, sp := range gd.Specs {
+				vs, ok := sp.(*ast.ValueSpec)
+				if !ok {
+					continue
+				}
+				for i, nm := range vs.Names {
+					if i < len(vs.Values) {
+						if id, isId := vs.Values[i].(*ast.Ident); isId && id.Name == nm.Name {
+							inside := false
+							for _, fl := range lits {
+								if fl.Pos() <= ds.Pos() && ds.End() <= fl.End() {
+									inside = true
+								}
+							}
+							if !inside {
+								exposed = true
+							}
+						}
+					}
+				}
+			}
+			return true
+		})
+		if !exposed {
+			return new, true
+		}
 	}
 	es, isExprStmt := stmt.(*ast.ExprStmt)
 	if !isExprStmt || es.X != ast.Expr(call) {
